@@ -340,6 +340,18 @@ def payload_chunked(u: U):
                       state is H.PayloadState.PAYLOAD_NEEDS_INPUT)
         u.check("C03.tail.chunked.exact", Or(stored_ok, fed_all),
                 "the unconsumed input is stored byte for byte (or everything was fed into the current chunk)")
+        # position = (state, tail): a byte taken off the input without being delivered as chunk data and without a
+        # state change is forgotten - the next call takes the same kind of byte off again (lax mode: CR CR LF after
+        # the chunk data is refused in one read, accepted when the read ends between the two CRs).  Stated for an
+        # iteration that starts in CHUNK or CHUNK_EOF (one that starts at a size line also consumes that line; the
+        # code after the size line sees a (state, input) pair that is itself an admissible loop-head configuration)
+        fed = sum((blen(e[1]) for e in payload.log[head["nlog"]:] if e[0] == "feed"), 0)
+        u.check("C03.restart.chunk_eof.nothing_of_the_terminator_consumed",
+                Implies(And(st == CHUNK_EOF, Or(head["state"] == CHUNK, head["state"] == CHUNK_EOF)),
+                        blen(head["chunk"]) - blen(tail) == fed),
+                "a call that stops between the chunk data and its line end has taken nothing but chunk data off the "
+                "input: whatever it saw of the terminator (a lone CR in lax mode too) is kept for the next call, so that "
+                "one read and two reads accept the same terminators", witness={"lax": lax, "stream": "3\\r\\nabc\\r|\\r\\n0\\r\\n\\r\\n"})
     else:
         # no iteration at all: (tail0 ++ chunk) was empty and nothing pending
         u.check("C03.tail.chunked.noop", blen(tail0) + blen(chunk_in) == 0, "the loop is skipped only when there is no input")
